@@ -173,10 +173,10 @@ Proof.
       + exact HfL.
     - assert (Er : rects = []).
       { apply flush_rects_empty_root; [reflexivity|]. fold T0. unfold nonempty. lia. }
-      subst sL. rewrite Er. cbn. split; [exact SI0|]. split; [exact Hu0|reflexivity].
+      subst sL. rewrite Er. unfold flush_log, acts_along. cbn [flat_map fold_left]. split; [exact SI0|]. split; [exact Hu0|reflexivity].
     - assert (Er : rects = []).
       { apply flush_rects_empty_root; [reflexivity|]. fold T0. unfold nonempty. lia. }
-      subst sL. rewrite Er. cbn. split; [exact SI0|]. split; [exact Hu0|reflexivity]. }
+      subst sL. rewrite Er. unfold flush_log, acts_along. cbn [flat_map fold_left]. split; [exact SI0|]. split; [exact Hu0|reflexivity]. }
   destruct HL as (SIL & HuL & HtL).
   assert (Etm : tm' = tmF).
   { rewrite <- Etm', <- EtmF, HtL. reflexivity. }
